@@ -172,7 +172,9 @@ type Cell struct {
 
 // "+q": the same residue modulo the group order in a non-canonical representation (a deviating party may
 // send it; the honest parties must still reject or produce canonical, valid output)
-var c05Kinds = []string{"+1", "rand", "other", "empty", "+q"}
+// "neg": the additive inverse modulo the group order (for a share or exponent: the value whose image is the
+// negated point, which has the same x coordinate on a Weierstrass curve)
+var c05Kinds = []string{"+1", "rand", "other", "empty", "+q", "neg"}
 var c06Kinds = []string{"zero", "empty", "one", "q-1", "q", "q+1", "2q", "N-1", "N", "N+1", "N2", "2^256", "2^2048", "2^63", "2^64-1", "huge", "flip-low", "flip-high", "lead-zero", "p", "p+x", "neg"}
 var c12Kinds = []string{"+1", "-1", "rand", "swap", "zero", "neg", "neg-p"}
 
@@ -342,7 +344,7 @@ func EnumCells(check, tier string) ([]Cell, []byzConfig) {
 							continue
 						}
 						if !f.List {
-							for _, k := range []string{"+1", "-1", "rand", "other", "zero"} {
+							for _, k := range []string{"+1", "-1", "rand", "other", "zero", "neg"} {
 								add(-1, k)
 							}
 							continue
